@@ -178,6 +178,26 @@ def bodiless_templates(lang):
     return ["void m() {\n  x();\n}\nvoid n();\n", "struct s {\n  void m() {\n    x();\n  }\n  void n();\n};\n", "void n()\n"]
 
 
+def continuation_templates(lang):
+    """A backslash-newline at every blank and at every line end (one at a time) of a few small sources: legal odd layouts
+    ('async \\' newline 'def f():'), joined lines ('x = 1 + \\' newline 'def f(a):') and plain soup."""
+    from vf.harness import tree
+
+    bases = {
+        "Python": ["async def f(a):\n    return a\n", "x = 1 +\ndef f(a, b):\n    y = a\n    return y\n", "class K:\n    def m(self):\n        pass\n    async def n(self):\n        pass\n",
+                   "def o():\n    def i(a):\n        return a\n    return i\n"],
+    }.get(lang) or [tree.flat_file(lang, [3, 2]), "#define M(a) a\n" + tree.flat_file(lang, [2]) if lang in ("C", "C++") else tree.flat_file(lang, [4])]
+    out = []
+    for base in bases:
+        for i, ch in enumerate(base):
+            if ch == " " and (i == 0 or base[i - 1] != " "):
+                out.append(base[:i] + " \\\n" + base[i + 1:].lstrip(" "))
+                out.append(base[:i] + " \\\n" + base[i:])
+            elif ch == "\n":
+                out.append(base[:i] + " \\" + base[i:])
+    return list(dict.fromkeys(out))
+
+
 def deep_templates(lang, depth):
     """Deep brackets / blocks / nested functions."""
     out = []
